@@ -1,7 +1,8 @@
 /-
   Usability of feasible depth limits (property C03, second half).
 
-  * `distAttained`, `tyUsable` / `refinementsUsable`, `altsAbstract` : decidable side conditions.
+  * side conditions `distAttained`, `tyUsable` / `refinementsUsable`, `altsAbstract` : see
+    `Lemmas/DepthDefs.lean`.
   * `Depth.chooseProd_total` : with a fitting alternative the deciders always return a production.
   * `Depth.noBadP_all` : under the budget invariant creation never fails with the deciders'
     empty-choice `AssertionError` nor with a `SynthesisException`.
@@ -9,22 +10,6 @@
     for every solution of the distance equations (`isFixpoint`).
 -/
 import GEVerif.Lemmas.Depth
-namespace GEVerif
-
-/-- every registered class with registered alternatives and a finite distance has an
-alternative that attains it (`e + dist p ≤ dist n`) -/
-def distAttained (g : Grammar) : Bool :=
-  g.reg.allNodes.all fun s =>
-    match s with
-    | .cls n =>
-      match g.altsOf n with
-      | some prods =>
-        !(decide (lookupDist g.dist (.cls n) < INF)) ||
-        prods.any fun p => decide (g.e + lookupDist g.dist (.cls p) ≤ lookupDist g.dist (.cls n))
-      | none => true
-    | _ => true
-
-end GEVerif
 
 namespace GEVerif.Depth
 open GEVerif
@@ -200,9 +185,7 @@ theorem union_has_fit (g : Grammar) (dec : Decider) (hD : dec.maxDepth < INF) (t
   simp only [Grammar.distOf]
   omega
 
-end GEVerif.Depth
-namespace GEVerif.Depth
-open GEVerif
+
 
 /-- the errors that mean "creation failed midway because of the depth budget": the decider's
 empty-choice `AssertionError` and a `SynthesisException` -/
@@ -385,44 +368,7 @@ theorem genChars_err (al : List String) (hal : al ≠ []) : ∀ (n : Nat) (s s' 
     · exact genChars_err al hal n _ _ _ h
     · exact absurd h (pure_not_err _ _ _ _)
 
-end GEVerif.Depth
-namespace GEVerif
 
-/-- a refinement whose `generate` cannot hit an empty `choice` / a non-list base, and cannot
-raise `SynthesisException` -/
-def mhUsable (base : Ty) : MH → Bool
-  | .intList xs => !xs.isEmpty
-  | .varRange opts => !opts.isEmpty
-  | .listSize _ _ => (match base with | .list _ => true | _ => false)
-  | .strSize _ _ al => !al.isEmpty
-  | .floatList n => n != 0
-  | .depListSize _ => (match base with | .list _ => true | _ => false)
-  | .depVarFrom _ => false
-  | _ => true
-
-mutual
-def tyUsable : Ty → Bool
-  | .list t => tyUsable t
-  | .tuple ts => tysUsable ts
-  | .union ts => tysUsable ts
-  | .ann t mh => mhUsable t mh && tyUsable t
-  | _ => true
-def tysUsable : List Ty → Bool
-  | [] => true
-  | t :: ts => tyUsable t && tysUsable ts
-end
-
-/-- all field types of the registered classes are usable -/
-def refinementsUsable (g : Grammar) : Bool :=
-  g.reg.allNodes.all fun s =>
-    match s with
-    | .cls n => (g.cls n).fields.all fun f => tyUsable f.2
-    | _ => true
-
-end GEVerif
-
-namespace GEVerif.Depth
-open GEVerif
 
 theorem tysUsable_mem (ts : List Ty) (h : tysUsable ts = true) (t : Ty) (ht : t ∈ ts) :
     tyUsable t = true := by
@@ -462,9 +408,7 @@ theorem resolveDep_shape (base : Ty) (mh : MH) (deps : List (String × Val))
   case depVarFrom f => cases hu
   all_goals exact Or.inl ⟨_, rfl, hu⟩
 
-end GEVerif.Depth
-namespace GEVerif.Depth
-open GEVerif
+
 
 /-- third fuel induction: under the budget invariant creation never fails with the decider's
 `AssertionError` nor with a `SynthesisException` -/
@@ -567,9 +511,7 @@ theorem noBad_tuple_succ (g : Grammar) (dec : Decider) (fuel : Nat) (ih : NoBadP
     · exact ih.2.2.2.2 _ _ _ _ _ h (fun f hf => hall f (List.mem_cons_of_mem _ hf))
     · exact absurd h (pure_not_err _ _ _ _)
 
-end GEVerif.Depth
-namespace GEVerif.Depth
-open GEVerif
+
 
 theorem noBad_node_succ (g : Grammar) (dec : Decider) (fuel : Nat)
     (hc : distConsistent g = true) (ha : distAttained g = true) (hr : refinementsUsable g = true)
@@ -746,17 +688,7 @@ theorem noBadP_all (g : Grammar) (dec : Decider) (hc : distConsistent g = true)
     exact ⟨noBad_node_succ g dec fuel hc ha hr hk hD ih, noBad_abstract_succ g dec fuel hk ih,
       noBad_fields_succ g dec fuel ih, noBad_elems_succ g dec fuel ih, noBad_tuple_succ g dec fuel ih⟩
 
-end GEVerif.Depth
-namespace GEVerif
 
-/-- only abstract classes have registered alternatives (an invariant of `register_type`) -/
-def altsAbstract (g : Grammar) : Bool :=
-  g.reg.alts.all fun kv => (g.cls kv.1).abstract
-
-end GEVerif
-
-namespace GEVerif.Depth
-open GEVerif
 
 theorem lookupDist_mem_of_lt (d : DistTable) (s : Sym) (h : lookupDist d s < INF) :
     (s, lookupDist d s) ∈ d := by
@@ -892,10 +824,7 @@ theorem fixpoint_attained (g : Grammar) (hfix : isFixpoint g.spec g.reg g.dist =
         exact Or.inl hlt
   | _ => rfl
 
-end GEVerif.Depth
 
-namespace GEVerif.Depth
-open GEVerif
 
 theorem badErr_false (e : Err) (h : badErr e = false) :
     e ≠ .foreign "AssertionError" ∧ e ≠ .synthesis := by
@@ -929,5 +858,24 @@ theorem mutateRoot_noBad (g : Grammar) (dec : Decider) (fuel : Nat) (i : Val) (s
       · rw [if_pos hemp] at h; exact hfresh h
       · rw [if_neg hemp] at h
         exact pick_err _ (by intro h0; rw [h0] at hemp; exact hemp rfl) _ _ _ h
+
+/-! ### The grammar of the retry-loop witness -/
+
+/-- abstract `A` with `P1(vars : Annotated[list[str], ListSizeBetween(0,1)],
+x : Annotated[str, Dependent("vars", VarRange)])` and `P2(a : P1)`; minimum depth 1 -/
+def retrySpec : GrammarSpec :=
+  { classes := [
+      { name := "A", abstract := true, parent := none, fields := [] },
+      { name := "P1", abstract := false, parent := some 0,
+        fields := [("vars", .ann (.list .str) (.listSize 0 1)),
+                   ("x", .ann .str (.depVarFrom "vars"))] },
+      { name := "P2", abstract := false, parent := some 0, fields := [("a", .cls 1)] }],
+    start := 0, considered := [0, 1, 2] }
+
+def retryG : Grammar := analyse retrySpec
+
+def errOf : Res Val → Option Err
+  | .ok _ _ => none
+  | .err e _ => some e
 
 end GEVerif.Depth
